@@ -83,7 +83,7 @@ theorem snapshot_legacy_congr (hrows : hasModRows.all rowOk = true) (hrel : hasM
     | some row => exact hflag row (List.mem_of_getElem? hg)
   have hb : ∀ i, i ∈ relevant → c.testBit i = b.testBit i := h
   simp only [Rep.snapshot, Snapshot.mk.injEq]
-  refine ⟨?_, ?_, hflagAt rowHr, rfl, rfl, ?_, ?_, rfl, rfl, rfl, rfl, List.map_congr_left hflag⟩
+  refine ⟨?_, ?_, hflagAt rowHr, rfl, rfl, ?_, ?_, rfl, rfl, rfl, rfl, rfl, rfl, List.map_congr_left hflag⟩
   · simp only [Rep.clockRate, legacyClockRate_eq, hb 6 (by decide), hb 8 (by decide)]
   · unfold Rep.mult
     rw [find?_congr' multChain _ _ (fun x _ => hflagAt x.1)]
